@@ -40,6 +40,7 @@ class Obs:
         self.commits = sim.commit_count
         self.monitor = list(sim.monitor)
         self.flags = set(sim.flags)
+        self.counters = dict(sim.counters)
         self.procs = [
             {"label": p.label, "job_i": p.job_i, "reads": list(p.reads), "writes": list(p.writes),
              "rc": getattr(p, "returncode", None), "start": p.started_at,
